@@ -1,4 +1,5 @@
 """driver execution, trace cooking, TLC trace validation"""
+import re
 import json, os, subprocess, sys, time, shutil, tempfile, re
 
 VERIF = os.path.dirname(os.path.dirname(os.path.abspath(__file__)))
@@ -35,7 +36,29 @@ def split_scenarios(text):
     return blocks
 
 
-def run_driver(qsx, scen_text, workdir, tag, crash_props, call_timeout=60, wall=1800, env=None, one_per_process=False):
+def memcheck_summary(logfile):
+    """summarise a valgrind memcheck log: number of error reports, their kinds, the first library frames"""
+    kinds, sites, n = {}, [], 0
+    try:
+        txt = open(logfile, errors="replace").read()
+    except OSError:
+        return dict(errors=-1, kinds="", sites="no log")
+    blocks = re.split(r"\n==\d+== \n", "\n" + txt)
+    for b in blocks:
+        m = re.search(r"==\d+== (Invalid (?:read|write|free)[^\n]*|Conditional jump or move depends on uninitialised value\(s\)|Use of uninitialised value[^\n]*|"
+                      r"Syscall param[^\n]*|Source and destination overlap[^\n]*|Mismatched free[^\n]*|Jump to the invalid address[^\n]*|Process terminating[^\n]*)", b)
+        if not m:
+            continue
+        n += 1
+        k = m.group(1).split(" of size")[0]
+        kinds[k] = kinds.get(k, 0) + 1
+        fr = [f for f in re.findall(r"(?:at|by) 0x[0-9A-F]+: (\S+)", b) if not f.startswith(("__gmp", "mem", "str", "malloc", "calloc", "realloc", "free"))]
+        if fr and len(sites) < 6:
+            sites.append("<".join(fr[:3]))
+    return dict(errors=n, kinds="; ".join("%s x%d" % kv for kv in sorted(kinds.items())), sites=" | ".join(sites))
+
+
+def run_driver(qsx, scen_text, workdir, tag, crash_props, call_timeout=60, wall=1800, env=None, one_per_process=False, wrapper=None):
     """run all scenario blocks; restart after a crash with the remaining blocks.
     returns (events, info) - events: list of cooked event dicts"""
     os.makedirs(workdir, exist_ok=True)
@@ -53,14 +76,21 @@ def run_driver(qsx, scen_text, workdir, tag, crash_props, call_timeout=60, wall=
         e["QSX_CALL_TIMEOUT"] = str(call_timeout)
         if env:
             e.update(env)
+        cmd = [qsx, sf, tf, tf + ".out", tf + ".err"]
+        if wrapper == "valgrind":
+            # memcheck on the plain build (C17: uninitialised reads that influence a result are invisible to ASan)
+            cmd = ["valgrind", "-q", "--error-exitcode=0", "--num-callers=12", "--log-file=" + tf + ".vg"] + cmd
+            e["QSX_CALL_TIMEOUT"] = str(max(call_timeout * 20, 600))
         try:
-            r = subprocess.run([qsx, sf, tf, tf + ".out", tf + ".err"], cwd=workdir, env=e, timeout=wall,
+            r = subprocess.run(cmd, cwd=workdir, env=e, timeout=wall,
                                stdout=subprocess.DEVNULL, stderr=subprocess.DEVNULL)
             rc = r.returncode
         except subprocess.TimeoutExpired:
             rc = -99
         evs, crashed, nscen = cook(tf, crash_props, rc)
         events.extend(evs)
+        if wrapper == "valgrind":
+            events.append(dict(call="memcheck", **memcheck_summary(tf + ".vg")))
         if crashed is None:
             if rc != 0:
                 raise RuntimeError("driver exit %s without crash record (%s)" % (rc, tf))
